@@ -262,7 +262,12 @@ def _optimize(self, *a, **kw):
     if MIP_CTL["nopre"]:
         self.preprocess = 0
     status = _ORIG_OPTIMIZE(self, *a, **kw)
-    MIP_CTL["last"] = {"status": status.name}
+    MIP_CTL["last"] = {"status": status.name, "x": []}
+    try:
+        if status.name in ("OPTIMAL", "FEASIBLE"):
+            MIP_CTL["last"]["x"] = [v.x for v in self.vars]
+    except Exception:
+        pass
     if MIP_CTL["inject"]:
         return getattr(_mip.OptimizationStatus, MIP_CTL["inject"])
     return status
@@ -845,6 +850,18 @@ def run_ilp(st):
         MIP_CTL["inject"] = None
         MIP_CTL["nopre"] = False
     t["solver"] = (MIP_CTL.get("last") or {}).get("status", "")
+    # the solver's own answer (the integer variables counts[item][bin], created item by item), for the check against the model the code should have built
+    xs = (MIP_CTL.get("last") or {}).get("x") or []
+    t["x"] = []
+    if t["out"] == "ret" and len(xs) == len(vals) * k:
+        rows = []
+        for i in range(len(vals)):
+            row = []
+            for b in range(k):
+                v = xs[i * k + b]
+                row.append(int(round(v)) if v is not None and abs(v - round(v)) < 1e-6 else -1)
+            rows.append(row)
+        t["x"] = rows
     for kdel in ("copies_scalar", "nopre"):
         t.pop(kdel, None)
     return t
